@@ -115,6 +115,17 @@ theorem C15_chan_bounded (c : Cfg σ ρ) (s : State σ ρ) (h : Reachable c s) :
     s.chan.length ≤ c.cap :=
   (reach_basic h).chanBound
 
+/-- back-pressure: while the reader is in its loop, at most `capacity + 2` rows are in flight
+(channel, one in the renderer's hands, one in the reader's) — a stalled consumer stalls the reader
+instead of growing a buffer or dropping rows -/
+theorem C15_inflight_bounded (c : Cfg σ ρ) (s : State σ ρ) (h : Reachable c s)
+    (hrun : s.reader = .running) : (inFlight s).length ≤ c.cap + 2 := by
+  have h1 := (reach_basic h).chanBound
+  have h2 := reach_outq h hrun
+  have h3 := toList_length_le s.cur
+  simp only [inFlight, List.length_append]
+  omega
+
 theorem getLast_ne_of_not_mem {l : List Nat} (h : 10 ∉ l) : l.getLast? ≠ some 10 := by
   intro e
   exact h (List.mem_of_getLast? e)
@@ -274,5 +285,18 @@ example : exQuietState.map (fun s => (s.eof, s.chan.length, s.cur.isNone, s.outq
 
 example : exQuietState.map (fun s => (s.inbuf, s.written, completeLines s.fed)) =
     some ([], [97, 10], [[120, 10]]) := by decide
+
+/-- the same state written out; no thread step is enabled in it (the hypothesis of
+`C15_no_delay_quiescent`): reader blocked in `read_until` with the partial line `y`, renderer
+blocked in `recv_timeout` -/
+def exQuiet : State Nat Bytes :=
+  { st := 1, fed := [120, 10, 121], carry := [121], consumed := [[120, 10]], written := [97, 10] }
+
+example : exQuietState = some exQuiet := rfl
+
+example : ¬ Enabled exCfg exQuiet := by
+  rintro ⟨l, hl, hn⟩
+  cases l <;> simp [next, payload, exQuiet, Label.internal, splitNl] at hn hl
+  omega
 
 end Ag.C15
